@@ -17,6 +17,7 @@ serde_json itself (type-directed JSON, 64-bit integer edges, control / non-ASCII
 -/
 import Cacache.Lemmas.ReadBack
 import Cacache.Props.C05
+import Cacache.Lemmas.CodecLaws
 
 namespace Cacache.C11
 open Prog
@@ -35,8 +36,9 @@ theorem record_fields_returned (key : Bytes) (o : WriteOpts) (a : Algo) (data : 
 integrity, the explicit timestamp (if one was given: `htm`), the size (declared, else the number
 of bytes written — `hsize` is what `BucketPost` provides), the JSON metadata (else null), the raw
 metadata. -/
-theorem metadata_returned (L : (codec cfg).Laws) (fs' : FS) (key : Bytes) (o : WriteOpts) (a : Algo)
-    (data b0 : Bytes) (tm : Nat) (nbytes : Nat)
+theorem metadata_returned {W : Rec → Prop} (L : (codec cfg).Laws W) (fs' : FS) (key : Bytes)
+    (o : WriteOpts) (a : Algo) (data b0 : Bytes) (tm : Nat) (nbytes : Nat)
+    (hW : W (mkRec key { o with sri := some (Sri.compute cfg.H a data), size := some (o.size.getD nbytes) } tm))
     (hbucket : fs'.get (bucketPath cfg cache key) = some (.file (b0 ++ (codec cfg).frame
       (mkRec key { o with sri := some (Sri.compute cfg.H a data), size := some (o.size.getD nbytes) } tm)))) :
     (run env (find cfg cache key) fs').1 =
@@ -46,12 +48,12 @@ theorem metadata_returned (L : (codec cfg).Laws) (fs' : FS) (key : Bytes) (o : W
   congr 1
   have hk : (codec cfg).key (mkRec key { o with sri := some (Sri.compute cfg.H a data), size := some (o.size.getD nbytes) } tm) = key := rfl
   have hcls := cls_mkRec_compute cfg key { o with size := some (o.size.getD nbytes) } a data tm
-  have := C05.lookup_returns_last_write (codec cfg) L b0 [] [] _ _ hcls (by simp)
+  have := C05.lookup_returns_last_write (codec cfg) L b0 [] [] _ _ (by simpa using hW) hcls (by simp)
   rw [hk] at this
   simpa [Codec.appendAll] using this
 
 /-- An explicit timestamp is the one recorded (any value); without one the recorded time is the
-answer of the clock call. -/
+answer of the clock call (a `u128`: `env.clock % 2^128`). -/
 theorem time_recorded (key : Bytes) (o : WriteOpts) (b0 : Bytes) (fs : FS)
     (hb : BucketIs fs (bucketPath cfg cache key) b0) (s : Integrity)
     (hr : (run env (insert cfg cache key o) fs).1 = .ok s) :
@@ -63,7 +65,7 @@ theorem time_recorded (key : Bytes) (o : WriteOpts) (b0 : Bytes) (fs : FS)
 /-- The default timestamp really is the clock: with no explicit time the healthy run asks the
 clock exactly once and records its answer (`env.clock`, Unix milliseconds in the harness). -/
 theorem default_time_is_clock (o : WriteOpts) (h : o.time = none) (fs : FS) :
-    (run env (getTime o) fs).1 = env.clock := by
+    (run env (getTime o) fs).1 = env.clock % (timeMax + 1) := by
   simp [getTime, h, run, call, exec]
 
 theorem explicit_time_kept (o : WriteOpts) (t : Nat) (h : o.time = some t) (fs : FS) :
@@ -76,5 +78,23 @@ theorem record_text (r : Rec) :
     Rec.encJson r = Rec.kKey ++ Json.renderStr r.key ++ Rec.kIntegrity ++ Rec.renderOptStr r.integrity ++
       Rec.kTime ++ Json.renderNat r.time ++ Rec.kSize ++ Json.renderNat r.size ++
       Rec.kMetadata ++ Json.render r.metadata ++ Rec.kRaw ++ Rec.renderOptRaw r.raw ++ [125] := rfl
+
+/-- **Metadata fidelity for cacache's own record format**: with well-formed options (and a byte
+count that is a `usize`) the lookup returns exactly what was supplied.  The JSON round trip
+(`Json.parse (render v) = some v` for every well-formed value nested < 127 levels, numbers
+included) is `Lemmas/JsonRT.lean`; nesting ≥ 127 is the excluded point — known finding F9. -/
+theorem metadata_returned_cacache (fs' : FS) (key : Bytes) (o : WriteOpts) (ho : OptsWF key o) (a : Algo)
+    (data b0 : Bytes) (tm : Nat) (htm : tm ≤ timeMax) (nbytes : Nat) (hn : nbytes ≤ Rec.u64Max)
+    (hbucket : fs'.get (bucketPath cfg cache key) = some (.file (b0 ++ (codec cfg).frame
+      (mkRec key { o with sri := some (Sri.compute cfg.H a data), size := some (o.size.getD nbytes) } tm)))) :
+    (run env (find cfg cache key) fs').1 =
+      .ok (some { key := key, sri := Sri.compute cfg.H a data, time := tm, size := o.size.getD nbytes,
+                  metadata := o.metadata.getD .null, raw := o.raw }) := by
+  refine metadata_returned cfg env cache (codec_laws cfg) fs' key o a data b0 tm nbytes ?_ hbucket
+  have hsz : o.size.getD nbytes ≤ Rec.u64Max := by
+    cases hs : o.size with
+    | none => simpa using hn
+    | some n => simpa using ho.size n hs
+  exact mkRec_wf key _ tm ((ho.with_computed cfg.H a data).with_size _ hsz) htm
 
 end Cacache.C11
